@@ -44,6 +44,15 @@ for _t in [
     NT("size_t", "integer(C_SIZE_T)", "C_SIZE_T", "int", [0, 1, LONG_MAX], hdr="<stddef.h>"),
     NT("int32_t", "integer(C_INT32_T)", "C_INT32_T", "int", [0, -1, INT_MAX, -INT_MAX - 1], hdr="<stdint.h>"),
     NT("int64_t", "integer(C_INT64_T)", "C_INT64_T", "int", [0, -1, LONG_MAX, -LONG_MAX - 1], hdr="<stdint.h>"),
+    NT("uint64_t", "integer(C_INT64_T)", "C_INT64_T", "int", [0, 1, LONG_MAX], hdr="<stdint.h>"),
+    NT("uint32_t", "integer(C_INT32_T)", "C_INT32_T", "int", [0, 1, INT_MAX], hdr="<stdint.h>"),
+    NT("int16_t", "integer(C_INT16_T)", "C_INT16_T", "int", [0, -1, 32767, -32768], hdr="<stdint.h>"),
+    NT("uint16_t", "integer(C_INT16_T)", "C_INT16_T", "int", [0, 1, 32767], hdr="<stdint.h>"),
+    NT("int8_t", "integer(C_INT8_T)", "C_INT8_T", "int", [0, -1, 127, -128], hdr="<stdint.h>"),
+    NT("uint8_t", "integer(C_INT8_T)", "C_INT8_T", "int", [0, 1, 127], hdr="<stdint.h>"),
+    NT("unsigned long", "integer(C_LONG)", "C_LONG", "int", [0, 1, LONG_MAX]),
+    NT("unsigned short", "integer(C_SHORT)", "C_SHORT", "int", [0, 1, 32767]),
+    NT("unsigned long long", "integer(C_LONG_LONG)", "C_LONG_LONG", "int", [0, 1, LONG_MAX]),
     NT("float", "real(C_FLOAT)", "C_FLOAT", "real4", [0.0, -1.5, 3.4028234663852886e38, 1.1754943508222875e-38]),
     NT("double", "real(C_DOUBLE)", "C_DOUBLE", "real8", [0.0, -1.5, 1.7976931348623157e308, 2.2250738585072014e-308, 1048576.125]),
 ]:
@@ -1376,7 +1385,8 @@ class Library(object):
 def core_args(level=1):
     T = NATIVE
     A = []
-    nat = ["int", "double"] if level == 1 else ["int", "long", "short", "long long", "unsigned int", "size_t", "int32_t", "int64_t", "float", "double"]
+    nat = ["int", "double", "uint64_t"] if level == 1 else ["int", "long", "short", "long long", "unsigned int", "size_t", "int32_t", "int64_t", "float", "double",
+                                                            "uint64_t", "uint32_t", "int16_t", "uint16_t", "int8_t", "uint8_t", "unsigned long", "unsigned short", "unsigned long long"]
     for t in nat:
         A.append(Val(T[t]))
     A += [BoolVal(), CharVal()]
@@ -1404,7 +1414,8 @@ def core_args(level=1):
 def core_results(level=1):
     T = NATIVE
     R = [VoidRes()]
-    nat = ["int", "double"] if level == 1 else ["int", "long", "short", "long long", "unsigned int", "size_t", "float", "double"]
+    nat = ["int", "double", "uint64_t"] if level == 1 else ["int", "long", "short", "long long", "unsigned int", "size_t", "float", "double",
+                                                            "uint64_t", "uint32_t", "int16_t", "uint16_t", "int8_t", "uint8_t", "unsigned long", "unsigned short", "unsigned long long"]
     for t in nat:
         R.append(NatRes(T[t]))
     R += [BoolRes(True), BoolRes(False), CharRes()]
